@@ -195,6 +195,25 @@ def run_case(rng, tier, case):
     if not r1.ok:
         case.reject('S: ' + flow.describe_error(r1)); return
     check_bounds(case, spec, r1, ck)
+    # totals: a take volume stated for a period that is only partly covered counts with covered elapsed time / length of the period (UTC clock)
+    from .c08 import check_takes
+    check_takes(case, spec, r1, ck, clause='steps.take_prorated_by_elapsed_time')
+    if rng.random() < 0.3:
+        # the portfolio WITH its grid through the JSON form (documented way to store a portfolio; run_from_json / set_param build on it): the loaded
+        # portfolio, set up on the grid it carries, gives the same problem - main time unit and step lengths included
+        try:
+            import eaopack.serialization as ser
+            from ..spec import build
+            with env.quiet(), attach.paused():
+                bj = build(spec)
+                bj.portfolio.set_timegrid(bj.timegrid)
+                Pj = ser.load_from_json(ser.to_json(bj.portfolio))
+                opj = Pj.setup_optim_problem(bj.prices)
+            dj = problem_diff(Snap(r1.op), Snap(opj), rtol=1e-12, compare_mapping=False)
+            case.check('unit.json_route_same_problem', dj is None, unit=u, freq=spec['grid']['freq'], diff=dj)
+        except Exception as e:
+            if not any(a['type'] == 'LinkedAsset' for a in spec['assets']):
+                case.check('unit.json_route_same_problem', False, unit=u, freq=spec['grid']['freq'], error='%s: %s' % (type(e).__name__, str(e)[:160]))
     r2 = flow.run_portfolio(sp2, do_extract=False)
     if not r2.ok:
         case.check('unit.setup_still_works', False, units=[u, u2], error=flow.describe_error(r2)); return
